@@ -1276,6 +1276,10 @@ def ext_call(interp, fn, args, kwargs, node):
         return s
     if interp.load_mode:
         return Ext(f"{path}({argrepr(args, kwargs)})", fn.origin, role="loadtime", parent=fn, callargs=(tuple(args), dict(kwargs)))
+    if path == "wpilib.Timer" and fn.origin == "lib" and getattr(interp, "model_wpilib_timer", False):
+        # a check asked for WPILib's Timer to be interpreted (sa/prelude/wpilib_timer.py) instead of being opaque
+        tm = model_module(interp, "wpilib_timer")
+        return interp.call(tm.ns["Timer"], list(args), dict(kwargs), node)
     kind = "user" if fn.origin == "user" else "ext"
     ev = interp.emit(kind, path, args, kwargs, node=node, callee=fn)
     if kind == "user" and interp.user_may_raise:
